@@ -217,14 +217,12 @@ fn fidelity(case: &Case, obs: &mut Obs) -> PropResult {
 	let mut model = class_from_stream(&case.stream, 4, 40);
 	let shared = crate::classfile::gen::share_bsms(&mut model, case.share);
 	obs.label_if(shared > 0, "dynamic_sites_sharing_a_bootstrap_method");
-	if let Some(size) = crate::classfile::gen::add_big_attribute(&mut model, case.big) {
-		obs.label(if size > 65535 { "attribute_payload>65535" } else { "attribute_payload<=65535" });
-	}
-	if let Some(table) = crate::classfile::gen::inflate_table(&mut model, case.big) {
-		obs.label(format!("table_with_300_entries:{table}"));
-	}
-	if let Some(n) = crate::classfile::gen::add_long_string(&mut model, case.big) {
-		obs.label(if n > 32767 { "utf8_constant>32767_bytes" } else { "utf8_constant=32767_bytes" });
+	let mut nesting = 0usize;
+	for l in crate::classfile::gen::apply_big(&mut model, case.big, usize::MAX) {
+		if let Some(d) = l.strip_prefix("element_value_nesting=") {
+			nesting = d.parse().unwrap_or(0);
+		}
+		obs.label(l);
 	}
 	let canon = model.canon();
 	let mut projections: Vec<CClass> = Vec::new();
@@ -250,7 +248,12 @@ fn fidelity(case: &Case, obs: &mut Obs) -> PropResult {
 		}
 		let mut expected = canon.clone();
 		apply_reader_masks(&mut expected, obs);
-		let got = read_and_project(&enc.bytes)?;
+		let got = match read_and_project(&enc.bytes) {
+			Ok(g) => g,
+			// open finding: the reader gives up beyond 256 levels of element value nesting (exactly this refusal, nothing else)
+			Err(e) if nesting > 256 && e.contains("nesting deeper than 256 levels") && obs.known("C01-nesting-limit-256") => return Ok(()),
+			Err(e) => return Err(e),
+		};
 		if got != expected {
 			return Err(format!("the class the reader delivers differs from the class file: (file vs reader) {}", first_diff(&expected, &got)));
 		}
